@@ -1,16 +1,16 @@
 (* C06 - check mode predicts the real run's changed/ok status. Pinned statements only. *)
 From Coq Require Import List String Ascii Bool NArith.
-From RashV Require Import Fs Octal StateMods Pacman StateSpec TemplatePacmanProofs StateProofs.
+From RashV Require Import Fs Octal StateMods Pacman StateSpec SeqSpec TemplatePacmanProofs StateProofs.
 Import ListNotations.
 
 Theorem C06_fs_check_predicts_real : forall e t s c1 s1 c2 s2,
   run_task e t true s = (ROk c1, s1) -> run_task e t false s = (ROk c2, s2) ->
-  no_alias t (sw s) = true -> known_empty_create t (sw s) = false -> c1 = c2.
+  no_alias t (sw s) = true -> known_empty_create e t (sw s) = false -> tmp_like_create e -> c1 = c2.
 Proof. exact fs_predicts. Qed.
 
 Theorem C06_fs_check_ok_means_real_run_does_nothing : forall e t s s1 c2 s2,
   run_task e t true s = (ROk false, s1) -> run_task e t false s = (ROk c2, s2) ->
-  no_alias t (sw s) = true -> known_empty_create t (sw s) = false -> c2 = false /\ s2 = s.
+  no_alias t (sw s) = true -> known_empty_create e t (sw s) = false -> tmp_like_create e -> c2 = false /\ s2 = s.
 Proof. exact fs_check_ok_means_real_noop. Qed.
 
 (* pacman: changed, packages to install, packages to remove and `upgraded` are identical, unless the
